@@ -657,6 +657,10 @@ class _HStack:
         self.left, self.right = left, right
 
 
+class _Wrong(Exception):
+    pass
+
+
 class _Undec(Exception):
     pass
 
@@ -701,8 +705,13 @@ def _stack_eval(fn, solver, tik_given):
         hi = None if e0.upper is None else ev(e0.upper)
         if lo is None and isinstance(hi, Rat) and hi.eq(L('m')):
             return 'top'
-        if hi is None and isinstance(lo, Rat) and lo.eq(L('m')):
+        if (hi is None or (isinstance(hi, Rat) and hi.eq(L('m') + L('n')))) and isinstance(lo, Rat) and lo.eq(L('m')):
             return 'bottom'
+        # a row range expressed in m, n and constants that is neither of the two blocks
+        okb = lambda v: v is None or (isinstance(v, Rat) and set(v.leaves()) <= {'m', 'n'})
+        if okb(lo) and okb(hi):
+            raise _Wrong('rows %s:%s of the stacked system are written; its blocks are rows 0:m (the geometry matrix / measurements) and '
+                         'm:m+n (the scaled regularisation matrix / zeros)' % (norm(e0.lower) if e0.lower is not None else '', norm(e0.upper) if e0.upper is not None else ''))
         return None
 
     def seq(e):
@@ -761,6 +770,8 @@ def _stack_eval(fn, solver, tik_given):
                     rows = ev(a0)
                 if isinstance(rows, Rat) and rows.eq(L('m') + L('n')):
                     return _Stack(C(0), C(0))
+                if isinstance(rows, Rat) and set(rows.leaves()) <= {'m', 'n'} and 'm' in rows.leaves() and 'n' in rows.leaves():
+                    raise _Wrong('the stacked system is allocated with %s rows; it has m + n (m measurements, n regularisation rows)' % rows.key())
                 return C(0)
             if d in ('np.asarray', 'np.array', 'np.asanyarray', 'np.ascontiguousarray', 'np.copy') and e.args:
                 return ev(e.args[0])
@@ -811,7 +822,7 @@ def _stack_eval(fn, solver, tik_given):
 
     def block(stmts):
         for st in stmts:
-            if isinstance(st, ast.Expr):
+            if isinstance(st, (ast.Expr, ast.Pass)):
                 continue
             if isinstance(st, ast.Return):
                 out['ret'] = ev(st.value) if st.value is not None else None
@@ -881,6 +892,9 @@ def _stacked(run, prog):
             run.subject('C11-R4')
             try:
                 out = _stack_eval(fn, solver, tik_given)
+            except _Wrong as e:
+                run.fail('C11-R4', K + 'blocks', mi.relpath, fn.lineno, '%s: %s' % (tag, e))
+                continue
             except _Undec as e:
                 run.undecided('C11-R4', tag, 'cannot interpret %s' % e)
                 continue
